@@ -48,7 +48,10 @@ def register(reg, prog):
         terminal signal exactly once and nothing after it"""
         kinds = [e[0] for e in s.log]
         done = kinds.count('set_result') + kinds.count('set_exception')
-        g = [('response-completed-exactly-once', B(done == 1))]
+        # ... by the library, unless the application had cancelled the future before the first event arrived (then it is complete
+        # already, and completing it again would raise InvalidStateError into the transport or into shutdown)
+        ev = Ev(ex, s, entry, env)
+        g = [('response-completed-exactly-once', z3.Or(B(done == 1), z3.And(B(done == 0), ev('self.response.g_cancelled and self.response.g_done'))))]
         errs = [i for i, k in enumerate(kinds) if k == 'obs_error']
         cbs = [i for i, k in enumerate(kinds) if k == 'obs_callback']
         g.append(('at-most-one-termination-signal', B(len(errs) <= 1)))
@@ -59,8 +62,12 @@ def register(reg, prog):
     def first_check(ex, s, entry, env):
         return [('nothing-before-the-first-event', B(not evs(s, 'set_result', 'set_exception', 'obs_callback', 'obs_error')))]
 
-    reg.contract(RQ + '._run', properties=P + ['C02'], yields={0: {'result': EVENT, 'owned': OWNED, 'assume': EV_OK, 'check': first_check},
-                                                               1: {'result': EVENT, 'owned': OWNED, 'assume': EV_OK}},
+    # the response future is shared with the application, which may cancel it at any time (and does nothing else to it): while the
+    # generator is suspended before the first event the future is either still pending or cancelled
+    APP_FUTURE = ['self.response.g_done == self.response.g_cancelled']
+    reg.contract(RQ + '._run', properties=P + ['C02', 'C18'], strict_futures=True,      # C18: shutdown feeds LibraryShutdown into this generator and must not be aborted by it
+                 yields={0: {'result': EVENT, 'owned': OWNED, 'assume': EV_OK + APP_FUTURE, 'check': first_check},
+                         1: {'result': EVENT, 'owned': OWNED, 'assume': EV_OK}},
                  requires=['self._pipe.request.transport_tuning.OBSERVATION_RESET_TIME > 0'],
                  raises={}, only_raises=True, modifies=['*'],
                  invariants={0: ['self.observation is not None', 'v1 is not None', '0 <= v1 < 2**24']},
